@@ -447,10 +447,10 @@ PLANS = {
     "C01": [M(["general", "blocking", "notime"], 11, 100), S(["traffic", "backpressure", "refs"], 18000, 150000, mode="diff"), S(["timeouts", "backpressure"], 12000, 100000, seed_off=2000), S(["traffic", "backpressure", "kill"], 9000, 60000, build="none", seed_off=1000)],
     "C02": [M(["general", "blocking"], 6, 60), S(["traffic", "backpressure", "idle"], 18000, 150000, mode="diff"), S(["traffic", "backpressure"], 9000, 60000, build="none", seed_off=1000)],
     "C03": [M(["tightrace"], 12, 150, fp_quick=True), M(["deathrace", "general", "blocking", "notime", "abort"], 13, 110), M(["reentrant"], 2, 10, seed_off=21), S(["traffic", "lifecycle", "kill", "faults", "timeouts"], 12000, 100000, mode="diff"), S(["kill", "lifecycle", "backpressure"], 9000, 60000, build="none", seed_off=1000)],
-    "C04": [S(["lifecycle", "kill", "faults"], 18000, 150000), S(["lifecycle", "kill"], 9000, 60000, build="none", seed_off=1000)],
-    "C05": [LAWS, S(["lifecycle", "faults", "kill"], 18000, 150000), S(["lifecycle", "faults"], 9000, 60000, build="none", seed_off=1000)],
+    "C04": [M(["dropspin"], 3, 20, seed_off=4), S(["lifecycle", "kill", "faults"], 18000, 150000), S(["lifecycle", "kill"], 9000, 60000, build="none", seed_off=1000)],
+    "C05": [LAWS, M(["dropspin"], 4, 30), S(["lifecycle", "faults", "kill"], 18000, 150000), S(["lifecycle", "faults"], 9000, 60000, build="none", seed_off=1000)],
     "C06": [M(["general", "deathrace"], 6, 60), S(["kill", "backpressure", "lifecycle"], 18000, 150000, mode="diff"), S(["kill", "refs"], 12000, 60000, build="none", seed_off=1000)],
-    "C07": [S(["refs", "idle", "lifecycle"], 18000, 150000, mode="diff"), S(["refs", "idle"], 9000, 60000, build="none", seed_off=1000)],
+    "C07": [M(["dropspin"], 3, 20, seed_off=8), S(["refs", "idle", "lifecycle"], 18000, 150000, mode="diff"), S(["refs", "idle"], 9000, 60000, build="none", seed_off=1000)],
     "C08": [S(["idle", "kill", "traffic"], 18000, 150000), S(["idle", "kill"], 9000, 60000, build="none", seed_off=1000)],
     "C09": [P("default"), P("set", 5), P("set", 1), P("set", 2), P("set", 7), P("set", 11), P("set", 13), P("set", 17), P("set", 19), P("set", 23), P("set", 29), P("spawn-then-set", 3), P("zero"), S(["backpressure", "traffic"], 24000, 200000), S(["backpressure"], 12000, 80000, build="none", seed_off=1000)],
     "C10": [LAWS, M(["blocking"], 8, 60), M(["starve"], 3, 30, seed_off=3), S(["timeouts", "kill"], 24000, 200000, mode="diff"), S(["timeouts"], 12000, 80000, build="none", seed_off=1000)],
@@ -460,7 +460,7 @@ PLANS = {
     "C14": [M(["mutualask"], 4, 40), S(["deadlock"], 48000, 400000, perts=(2, 4)), S(["deadlock"], 12000, 100000, mode="erased", seed_off=300)],
     "C15": [MIRI, S(["deadlock"], 48000, 400000, perts=(2, 4), seed_off=500), S(["deadlock"], 12000, 100000, mode="erased", seed_off=800), S(["traffic", "faults"], 9000, 60000)],
     "C16": [M(["blocking"], 5, 30), S(["traffic", "refs", "timeouts", "kill", "lifecycle", "backpressure", "idle", "faults"], 7500, 60000, mode="diff"), S(["refs", "traffic", "kill"], 6000, 40000, mode="diff", build="none", seed_off=1000)],
-    "C20": [MIRI, M(["readers"], 6, 60), M(["slow"], 2, 20, seed_off=5), S(["metrics", "traffic", "kill", "faults"], 15000, 120000)],
+    "C20": [MIRI, M(["readers"], 6, 60), M(["slow"], 2, 20, seed_off=5), M(["metricsrace"], 4, 30, seed_off=6), S(["metrics", "traffic", "kill", "faults"], 15000, 120000)],
     "C17": [M(["blocking"], 8, 90), M(["general"], 6, 60, seed_off=77), M(["hogged"], 5, 40, seed_off=13)],
     "C19": [M(["blocking", "general"], 6, 40), {"engine": "gen", "actors": (60, 400), "rounds": (1, 3)}, S(["traffic", "faults"], 9000, 60000)],
     "C18": [{"engine": "featdiff", "profiles": ["traffic", "backpressure", "lifecycle", "kill", "refs", "idle", "timeouts", "faults", "metrics", "overlap"], "count": (1500, 20000)}],
